@@ -1,7 +1,12 @@
 """C15 - service discovery.  spec/Discov.tla (abstract view of the registry), spec/DiscovImpl.tla
 (handleChanges / container mechanism, checked against Discov), spec/DiscovGen.tla (behaviour
 generator) -> replay through the real discov.NewSubscriber on a scripted EtcdClient."""
+import glob
+import json
 import os
+import re
+import time
+from concurrent.futures import ThreadPoolExecutor
 from vlib import core
 
 PKG = "./lib/discov/internal"
@@ -12,6 +17,10 @@ PKG_D = "./lib/discov"
 OVERLAY_D = {"lib/discov/zz_verif_c15_container_test.go": "c15/container_test.go"}
 RUN_D = "^TestVerifC15Container$"
 CONN_OPS = ("disconnect", "resume", "reload")
+# how long a NewSubscriber on an unreachable registry takes to fail (exported internal.DialTimeout,
+# default 5 s; nothing listens at those endpoints, so the outcome does not depend on the value)
+DIAL_MS = 2
+ENV = dict(VERIF_C15_VALOF="k1=va,k2=va,k3=vb,k4=vb", VERIF_C15_DIAL_TIMEOUT_MS=DIAL_MS)
 
 
 def consts(valof, subs, excl, mid, missed=3):
@@ -26,7 +35,6 @@ def consts(valof, subs, excl, mid, missed=3):
 V2 = dict(k1="va", k2="va")
 V3 = dict(k1="va", k2="va", k3="vb")
 V4 = dict(k1="va", k2="va", k3="vb", k4="vb")
-ALLV = "k1=va,k2=va,k3=vb,k4=vb"
 
 META = dict(
     text="Model-based replay: spec/Discov.tla describes a model etcd (keys under one prefix, two keys sharing a "
@@ -52,13 +60,28 @@ META = dict(
          "A sample of behaviours is replayed with Get faults (quick errors, Gets blocking until the request deadline; "
          "RequestTimeout shortened to 200 ms through the exported package variable) injected into a reload or the "
          "initial load: the predictions are unchanged and a load that never finishes although the registry answers "
-         "again is a disagreement.",
+         "again is a disagreement. "
+         "Histories may begin while the registry cannot be reached (Discov!AttachFail, generator constants "
+         "MinFail/MaxFail): 1-2 NewSubscriber calls - for the same or another subscriber of the key - are made on an "
+         "endpoint at which nothing listens (the real etcd client is dialled and fails after the exported DialTimeout, "
+         "shortened to 2 ms), then the scripted client becomes the cluster's client and the retry and the usual steps "
+         "follow (1 and 2 subscribers; also sampled into the Get-fault, sibling and connection-state stages and "
+         "the simulations); DiscovImpl.tla carries the listener left registered by the failed attempt and rejects "
+         "(JoinSkip) a Monitor that takes a registered listener for a running watch. "
+         "The driver waits for a watch after NewSubscriber only if that call took a snapshot (a joiner served from the "
+         "cache starts none); a call of the code under test that is stuck at a barrier time-out (blocked inside the "
+         "repository's code, unmoved a second later) and a panic / fatal error inside it - recovered on the driver's "
+         "goroutines, read from the crashed shard's log otherwise - are disagreements with their own keys "
+         "(C15:hang:*, C15:panic:*, C15:crash:<function>), not harness problems; harness problems are kept to the end "
+         "of the run and never hide a disagreement.",
     note="Trusted: TLC, the scripted EtcdClient (model etcd written for this check), the barrier (an event of unknown "
          "type whose error log line acknowledges that the watch goroutine is idle again), in the generated behaviours "
          "cluster.reload is called by the driver; in the connection-state stage the real stateWatcher calls it from a "
          "scripted connectivity-state source (only the three wiring lines of cluster.watchConnState are repeated by the "
          "test export, since ActiveConnection() returns a concrete *grpc.ClientConn). Not covered: "
-         "subscribers attaching while the watch is down, "
+         "subscribers attaching while the watch is down, a registry becoming unreachable again for NewSubscriber "
+         "after the first success (the client, once made, is kept), the real client's own dial/retry behaviour beyond "
+         "'returns an error after DialTimeout', "
          "watch channel errors/cancellation, compaction, a key changing its value without the subscriber seeing the "
          "delete (outside the statement's 'one value during its life' only if the key is re-created; probed, see "
          "evidence notes), events being processed concurrently with a reload (cluster.reload waits for the watch "
@@ -70,8 +93,8 @@ META = dict(
     design="4/C15")
 
 FINISH = dict(rule="behaviours = complete TLC enumeration (BFS over the history variable) of all step sequences of "
-                   "Discov!Next up to MaxLen steps from every initial key set, with MaxDisc disconnections and "
-                   "MaxReload reloads, plus seeded TLC simulation of longer behaviours; after every step Values() of "
+                   "Discov!Next up to MaxLen steps from every initial key set, with MaxDisc disconnections, "
+                   "MaxReload reloads and MinFail..MaxFail failed first attempts, plus seeded TLC simulation of longer behaviours; after every step Values() of "
                    "every attached subscriber must be one of the value sets the specification admits and listeners "
                    "must have run when the value list certainly changed")
 
@@ -80,25 +103,38 @@ def mc(ctx):
     K, _ = consts(V3, ["s1", "x1"], ["x1"], 1)
     cfg = core.render_cfg(spec="Spec", constants=K, invariants=["TypeOK", "Converged", "ExclSound"],
                           properties=["Listeners"], view="core")
-    r = ctx.tlc("Discov", cfg, constants=K, name="Discov-mc", workers=6, coverage=True, timeout=900, heap="3g")
+    r = ctx.tlc("Discov", cfg, constants=K, name="Discov-mc", workers=(2 if ctx.quick else 4), coverage=True, timeout=900, heap="3g")
     ctx.check_coverage(r, ["Change", "Delete", "Disconnect", "Resume", "Reload", "Attach"])
+    if "AttachFail" not in r.coverage:
+        raise core.Infra("vacuous model: action AttachFail never evaluated (coverage keys: %s)" % sorted(r.coverage))
     # mechanism model (snapshot diff base, container maps) against the abstract spec
     KI, _ = consts(V3, ["s1", "x1"], ["x1"], 1, missed=(2 if ctx.quick else 3))
-    KT = dict(KI, StoreBack=True)
+    KT = dict(KI, StoreBack=True, JoinSkip=False)
     cfg = core.render_cfg(spec="ISpec", constants=KT, invariants=["TypeOK", "Refines", "BaseIsView"], view="icore")
-    ctx.tlc("DiscovImpl", cfg, constants=KT, name="DiscovImpl-storeback", workers=6, timeout=1200, heap="3g")
+    ctx.tlc("DiscovImpl", cfg, constants=KT, name="DiscovImpl-storeback", workers=(2 if ctx.quick else 4), timeout=1200, heap="3g")
     # the same mechanism without storing the snapshot back: TLC's counterexample is a lead for the
     # replay (rule 1: not a verdict); it documents that the model separates the two trees
-    KF = dict(KI, StoreBack=False)
+    KF = dict(KI, StoreBack=False, JoinSkip=False)
     cfg = core.render_cfg(spec="ISpec", constants=KF, invariants=["Refines"], view="icore")
     r = ctx.tlc("DiscovImpl", cfg, constants=KF, name="DiscovImpl-nostoreback", workers=1, timeout=1200, heap="3g",
                 allow_violation=True)
     ctx.notes["model_lead"] = ("DiscovImpl with StoreBack=FALSE (handleChanges not storing the snapshot as the new diff base) "
                                "violates Refines: %s" % bool(r.violated))
+    # the mechanism that takes "a listener is registered for the key" for "the key is being watched":
+    # rejected only through a failed first attempt (the model separates the two trees; a lead)
+    KJ = dict(KI, StoreBack=True, JoinSkip=True)
+    cfg = core.render_cfg(spec="ISpec", constants=KJ, invariants=["Refines"], view="icore")
+    r = ctx.tlc("DiscovImpl", cfg, constants=KJ, name="DiscovImpl-joinskip", workers=1, timeout=1200, heap="3g",
+                allow_violation=True)
+    ctx.notes["model_lead_joinskip"] = ("DiscovImpl with JoinSkip=TRUE (Monitor skipping load and watch when the key has a "
+                                        "registered listener) violates Refines: %s" % bool(r.violated))
+    if not r.violated:
+        raise core.Infra("vacuous mechanism model: the tree that skips load and watch for a key with a registered listener "
+                         "is not rejected after a failed first attempt")
 
 
-def gen(ctx, name, K, maxlen, maxdisc, maxreload, simulate=None):
-    G = dict(K, MaxLen=maxlen, MaxDisc=maxdisc, MaxReload=maxreload)
+def gen(ctx, name, K, maxlen, maxdisc, maxreload, simulate=None, minfail=0, maxfail=0):
+    G = dict(K, MaxLen=maxlen, MaxDisc=maxdisc, MaxReload=maxreload, MinFail=minfail, MaxFail=maxfail)
     cfg = core.render_cfg(spec="GSpec", constants=G, invariants=["Emit"])
     r = ctx.tlc("DiscovGen", cfg, constants=G, name=name, simulate=simulate, depth=maxlen + 1, timeout=1500,
                 workers=(1 if simulate else 6), heap="4g")
@@ -106,70 +142,206 @@ def gen(ctx, name, K, maxlen, maxdisc, maxreload, simulate=None):
 
 
 def run(ctx):
-    mc(ctx)
+    ctx._c15_deferred = []
+    # model checking runs beside generation and replay (small models, 2 workers each)
+    pool = ThreadPoolExecutor(1)
+    mcf = pool.submit(mc, ctx)
     binp = ctx.go_build(PKG, OVERLAY, name="c15drv")
     A, _ = consts(V2, ["s1"], [], 0)
     B, _ = consts(V3, ["s1", "x1"], ["x1"], 1)
     X, _ = consts(V3, ["x1"], ["x1"], 1)
     D, _ = consts(V4, ["s1", "s2", "x1"], ["x1"], 1)
+    # g*: histories whose first NewSubscriber succeeds; f*: histories that begin with 1..2 attempts
+    # failing because the registry cannot be reached, then the retry, then the usual steps
     if ctx.quick:
         plans = [("gA7", A, dict(maxlen=7, maxdisc=2, maxreload=2)),
                  ("gB4", B, dict(maxlen=4, maxdisc=1, maxreload=2))]
-        sims = [("sB12", B, dict(maxlen=12, maxdisc=3, maxreload=3), 600)]
+        fplans = [("fA6", A, dict(maxlen=6, maxdisc=2, maxreload=2, minfail=1, maxfail=1)),
+                  ("fB4", B, dict(maxlen=4, maxdisc=1, maxreload=2, minfail=1, maxfail=2))]
+        sims = [("sB12", B, dict(maxlen=12, maxdisc=3, maxreload=3, maxfail=1), 600)]
     else:
         plans = [("gA8", A, dict(maxlen=8, maxdisc=3, maxreload=3)),
                  ("gB5", B, dict(maxlen=5, maxdisc=2, maxreload=2)),
                  ("gX5", X, dict(maxlen=5, maxdisc=2, maxreload=3))]
-        sims = [("sB14", B, dict(maxlen=14, maxdisc=4, maxreload=4), 5000),
-                ("sD20", D, dict(maxlen=20, maxdisc=5, maxreload=6), 5000)]
+        fplans = [("fA7", A, dict(maxlen=7, maxdisc=2, maxreload=2, minfail=1, maxfail=2)),
+                  ("fB5", B, dict(maxlen=5, maxdisc=1, maxreload=2, minfail=1, maxfail=2))]
+        sims = [("sB14", B, dict(maxlen=14, maxdisc=4, maxreload=4, maxfail=1), 5000),
+                ("sD20", D, dict(maxlen=20, maxdisc=5, maxreload=6, maxfail=2), 5000)]
     ctx.exhaustive = True
-    for name, K, kw in plans:
+    for name, K, kw in plans + fplans:
         cases = gen(ctx, name, K, **kw)
         path, cnt = ctx.write_cases(name + ".ndjson", cases)
         ctx.samples += core.sample_of(cases, 1)
-        ctx.replay(PKG, OVERLAY, RUN, path, label=name, env=dict(VERIF_C15_VALOF=ALLV), shards=16, binp=binp)
+        stage(ctx, PKG, OVERLAY, RUN, path, label=name, env=ENV, shards=SHARDS, binp=binp)
     # Get faults (errors, time-outs) during a reload / the initial load: same predictions
-    allc = [c for name, K, kw in plans for c in open(os.path.join(ctx.build, name + ".ndjson")).read().splitlines()]
-    fc = fault_cases(ctx, allc, 16 if ctx.quick else 96)
+    read = lambda name: open(os.path.join(ctx.build, name + ".ndjson")).read().splitlines()
+    allc = [c for name, K, kw in plans for c in read(name)]
+    failc = [c for name, K, kw in fplans for c in read(name)]
+    fc = fault_cases(ctx, allc, 16 if ctx.quick else 96) + fault_cases(ctx, failc, 8 if ctx.quick else 48)
     path, cnt = ctx.write_cases("faults.ndjson", fc)
-    ctx.replay(PKG, OVERLAY, RUN, path, label="faults", env=dict(VERIF_C15_VALOF=ALLV, VERIF_C15_REQ_TIMEOUT_MS=200),
-               shards=16, binp=binp)
+    stage(ctx, PKG, OVERLAY, RUN, path, label="faults", env=dict(ENV, VERIF_C15_REQ_TIMEOUT_MS=200), shards=SHARDS, binp=binp)
     # several prefixes on one cluster (the reload must reload and re-watch every one of them)
     mc_ = multi_cases(ctx, allc, 400 if ctx.quick else 6000)
     path, cnt = ctx.write_cases("multi.ndjson", mc_)
     ctx.samples += core.sample_of(mc_, 1)
-    ctx.replay(PKG, OVERLAY, RUN, path, label="multi", env=dict(VERIF_C15_VALOF=ALLV), shards=16, binp=binp)
+    stage(ctx, PKG, OVERLAY, RUN, path, label="multi", env=ENV, shards=SHARDS, binp=binp)
     # sibling services sharing the subscriber's name as a string prefix
-    sc_ = sibling_cases(ctx, allc, 3000 if ctx.quick else 40000)
+    sc_ = sibling_cases(ctx, allc, 3000 if ctx.quick else 40000) + sibling_cases(ctx, failc, 300 if ctx.quick else 4000)
     path, cnt = ctx.write_cases("siblings.ndjson", sc_)
-    ctx.replay(PKG, OVERLAY, RUN, path, label="siblings", env=dict(VERIF_C15_VALOF=ALLV), shards=16, binp=binp)
+    stage(ctx, PKG, OVERLAY, RUN, path, label="siblings", env=ENV, shards=SHARDS, binp=binp)
     # the real connection-state watcher: alone against spec/DiscovConn.tla, and end to end (its
     # notification starts the cluster's reload)
     KC = dict(MaxLen=(5 if ctx.quick else 7))
     cfg = core.render_cfg(spec="Spec", constants=KC, invariants=["OncePerOutage", "NoOutageNoNote", "Emit"])
     r = ctx.tlc("DiscovConn", cfg, constants=KC, name="DiscovConn-gen", workers=4, timeout=900, heap="3g")
     path, cnt = ctx.write_cases("statewatcher.ndjson", r.printed)
-    ctx.replay(PKG, OVERLAY, "^TestVerifC15StateWatcher$", path, label="statewatcher", shards=16, binp=binp)
-    cn_ = conn_cases(ctx, allc, 600 if ctx.quick else 8000)
+    stage(ctx, PKG, OVERLAY, "^TestVerifC15StateWatcher$", path, label="statewatcher", shards=SHARDS, binp=binp)
+    cn_ = conn_cases(ctx, allc, 600 if ctx.quick else 8000) + conn_cases(ctx, failc, 100 if ctx.quick else 1500)
     path, cnt = ctx.write_cases("connstate.ndjson", cn_)
     ctx.samples += core.sample_of(cn_, 1)
-    ctx.replay(PKG, OVERLAY, RUN, path, label="connstate", env=dict(VERIF_C15_VALOF=ALLV), shards=16, binp=binp)
+    stage(ctx, PKG, OVERLAY, RUN, path, label="connstate", env=ENV, shards=SHARDS, binp=binp)
     # concurrent Values() readers: (a) 3 goroutines reading in a tight loop while the events of a
     # behaviour are fed, (b) a reader queued on the container lock at the moment each event arrives
     rc_ = reader_cases(ctx, allc, 3000 if ctx.quick else 40000)
     path, cnt = ctx.write_cases("readers.ndjson", rc_)
-    ctx.replay(PKG, OVERLAY, RUN, path, label="readers", env=dict(VERIF_C15_VALOF=ALLV, VERIF_C15_READERS=3), shards=8, binp=binp)
+    stage(ctx, PKG, OVERLAY, RUN, path, label="readers", env=dict(ENV, VERIF_C15_READERS=3), shards=8, binp=binp)
     cc_ = container_cases(allc, 3000 if ctx.quick else 30000)
     path, cnt = ctx.write_cases("container.ndjson", cc_)
-    ctx.replay(PKG_D, OVERLAY_D, RUN_D, path, label="container", env=dict(VERIF_C15_VALOF=ALLV), shards=16)
+    stage(ctx, PKG_D, OVERLAY_D, RUN_D, path, label="container", env=ENV, shards=SHARDS)
     for name, K, kw, num in sims:
         cases = sorted(set(gen(ctx, name, K, simulate=num, **kw)))
         path, cnt = ctx.write_cases(name + ".ndjson", cases)
         ctx.samples += core.sample_of(cases, 1)
-        ctx.replay(PKG, OVERLAY, RUN, path, label=name, env=dict(VERIF_C15_VALOF=ALLV), shards=16, binp=binp)
+        stage(ctx, PKG, OVERLAY, RUN, path, label=name, env=ENV, shards=SHARDS, binp=binp)
     probe(ctx)
     ctx.assumptions += ["scripted EtcdClient stands for etcd (snapshot+revision, ordered watch from a requested revision)",
-                        "cluster.reload is invoked by the driver, not by the gRPC connection-state watcher"]
+                        "cluster.reload is invoked by the driver, not by the gRPC connection-state watcher",
+                        "a registry that cannot be reached = an endpoint at which nothing listens (the real etcd client is "
+                        "dialled and fails after DialTimeout); it becomes reachable when the scripted client is made the "
+                        "cluster's client"]
+    # harness problems never hide what was seen on the real code; vacuity guards only without disagreements
+    try:
+        mcf.result()
+    except core.Infra as e:
+        ctx._c15_deferred.append(e)
+    finally:
+        pool.shutdown()
+    if ctx._c15_deferred:
+        if not ctx.disagreements:
+            raise ctx._c15_deferred[0]
+        ctx.notes["harness_problem_besides_disagreement"] = str(ctx._c15_deferred[0])[:1500]
+    if not ctx.disagreements:
+        vacuity(ctx, [n for n, _, _ in fplans])
+
+
+SHARDS = 8
+
+
+def vacuity(ctx, fnames):
+    """The failed-first-attempt histories must really have had their failing attempts (NewSubscriber
+    returning an error) and their retries."""
+    for n in fnames:
+        cases = ctx.counters.get(n + ".cases", 0)
+        fa, ra = ctx.counters.get(n + ".failed_attempts", 0), ctx.counters.get(n + ".retried_attaches", 0)
+        if cases == 0 or fa < cases or ra < cases:
+            raise core.Infra("vacuous run: plan %s replayed %d histories with %d failed first attempts and %d retried "
+                             "NewSubscriber calls" % (n, cases, fa, ra))
+
+
+def stage(ctx, pkg, overlay, run, path, *, label, **kw):
+    """ctx.replay, except that a harness problem is kept for the end of the run (it must not hide a
+    disagreement seen in another shard or stage) and that a driver process brought down by the code
+    under test - a panic or a fatal runtime error on one of its own goroutines - is a finding."""
+    try:
+        return ctx.replay(pkg, overlay, run, path, label=label, **kw)
+    except core.Infra as e:
+        n = salvage(ctx, label, path)
+        core.log("stage %s: harness problem (%d disagreements recovered from its shards): %s" % (label, n, str(e)[:300]))
+        if n == 0:
+            ctx._c15_deferred.append(e)
+        else:
+            ctx.notes.setdefault("harness_problems", []).append(str(e)[:600])
+        return {}, []
+
+
+STD = ("runtime.", "runtime/", "sync.", "sync/", "time.", "internal/", "panic(", "testing.", "reflect.")
+
+
+def crash_site(out):
+    """(function, message) if the process log shows a panic / fatal error whose innermost frame
+    below the runtime lies in the repository's own code (not in an overlaid zz_verif file)."""
+    m = re.search(r"^(panic: .*|fatal error: .*)$", out, re.M)
+    if not m or "test timed out" in m.group(1):
+        return None
+    rest = out[m.end():]
+    g = re.search(r"^goroutine \d+ \[[^\]]*\]:\n", rest, re.M)
+    if not g:
+        return None
+    lines = rest[g.end():].split("\n\n")[0].splitlines()
+    for j in range(0, len(lines) - 1, 2):
+        fn, where = lines[j], lines[j + 1].strip()
+        if fn.startswith("created by "):
+            break
+        if fn.startswith(STD):
+            continue
+        if "github.com/gotid/god/" in fn and "zz_verif" not in where and "/internal/verifkit" not in fn:
+            short = re.sub(r"\([^()]*\)$", "", fn).split("/")[-1].split(".", 1)[-1].replace("(*", "").replace(")", "")
+            return short, m.group(1) + "\n" + "\n".join(lines[:24])
+        return None
+    return None
+
+
+def salvage(ctx, label, path):
+    """After ctx.replay gave up on a stage: wait for its shard processes, then record (a) the
+    disagreements the shards did report, (b) crashes caused by the code under test."""
+    logs = sorted(glob.glob(os.path.join(ctx.build, "%s-[0-9]*.out" % label)))
+    shard = lambda lp: lp[:-4].rsplit("-", 1)[1]
+    vfile = lambda lp: os.path.join(ctx.build, "verdicts-%s-%s.ndjson" % (label, shard(lp)))
+
+    def finished(lp):
+        out = open(lp, errors="replace").read()
+        if re.search(r"^(panic: |fatal error: |FAIL|PASS|ok )", out, re.M):
+            return True
+        vf = vfile(lp)
+        return os.path.exists(vf) and '"counters"' in open(vf).read()[-4000:]
+
+    t0 = time.time()
+    while time.time() - t0 < 180 and not all(finished(lp) for lp in logs):
+        time.sleep(1)
+    raws = open(path).read().splitlines() if path and os.path.exists(path) else []
+    have = set((d.get("label"), d.get("key"), d.get("case")) for d in ctx.disagreements)
+    n = 0
+
+    def add(key, msg, idx, step=None):
+        nonlocal n
+        case = raws[idx] if idx is not None and 0 <= idx < len(raws) else None
+        if (label, key, case) in have:
+            return
+        have.add((label, key, case))
+        ctx.disagreements.append(dict(key=key, msg=msg, step=step, case=case, source="replay", label=label))
+        n += 1
+
+    for lp in logs:
+        vf = vfile(lp)
+        if os.path.exists(vf):
+            for line in open(vf).read().splitlines():
+                try:
+                    b = json.loads(line)
+                except ValueError:
+                    continue
+                if "counters" in b or b.get("infra") or b.get("ok"):
+                    continue
+                add(b.get("key", ""), b.get("msg", ""), b.get("case"), b.get("step"))
+        site = crash_site(open(lp, errors="replace").read())
+        if site:
+            idx = None
+            try:
+                idx = int(open(vf + ".cur").read().strip())
+            except (OSError, ValueError):
+                pass
+            add("C15:crash:" + site[0], "the driver process was brought down inside the code under test while replaying "
+                "this history: " + site[1], idx)
+    return n
 
 
 FAULTS = [["err"], ["block"], ["err", "err"], ["block", "err"], ["err", "block"], ["block", "block"]]
@@ -330,13 +502,16 @@ def probe(ctx):
 
 
 def replay(ctx, rp):
+    ctx._c15_deferred = []
     path, _ = ctx.write_cases("replay.ndjson", [rp["case"]])
-    env = dict(VERIF_C15_VALOF=ALLV)
+    env = dict(ENV)
     if '"faults"' in rp["case"]:
         env["VERIF_C15_REQ_TIMEOUT_MS"] = 200
     if rp.get("label") == "container":
-        ctx.replay(PKG_D, OVERLAY_D, RUN_D, path, label="replay", env=env)
-        return
-    if rp.get("label") == "readers":
-        env["VERIF_C15_READERS"] = 3
-    ctx.replay(PKG, OVERLAY, RUN, path, label="replay", env=env)
+        stage(ctx, PKG_D, OVERLAY_D, RUN_D, path, label="replay", env=env)
+    else:
+        if rp.get("label") == "readers":
+            env["VERIF_C15_READERS"] = 3
+        stage(ctx, PKG, OVERLAY, RUN, path, label="replay", env=env)
+    if ctx._c15_deferred and not ctx.disagreements:
+        raise ctx._c15_deferred[0]
